@@ -1,4 +1,19 @@
 CHECKS = {
+ "C01": {
+  "technique": "Hypothesis-generated planted periodic structures; validity predicate per returned match against an independent brute-force image/Kabsch classifier",
+  "text": "Thousands of generated structures (tight orthorhombic/tilted cells, all pattern and pose classes, boundary-straddling copies, decoys incl. mirror images, every hint form, seeded RNGs); every returned match is checked for length, range, distinctness, elements, being a non-clear-out rigid image under some choice of periodic images, returned positions = stored position + lattice vector, and the returned proper rotation fitting within atol component-wise. Random search: no absence proof.",
+  "note": "grey zone between atol/16 (clear-in) and sqrt(3)*atol (clear-out) is not judged; numpy/scipy trusted",
+ },
+ "C02": {
+  "technique": "Hypothesis-generated planted structures vs. an independent brute-force reference matcher (three-valued) - differential on sets of atom groups",
+  "text": "IN subset-of reported subset-of IN+GREY with each group once and exact count when no grey group exists, on thousands of generated cases per run with measured distribution of boundary crossings (0-3), tilt signs, pose classes and decoys.",
+  "note": "reference matcher (mv/ref_match.py) is trusted; cases exceeding its candidate budget are skipped and counted",
+ },
+ "C03": {
+  "technique": "Hypothesis metamorphic testing (shift+wrap, permutation, pattern motion, hints, seeds, replication) on generated structures and the repository's MOF files",
+  "text": "For each generated base case one transformation is applied and the renamed set of matched atom groups must be equal (x a*b*c under replication); differences are tolerated only for groups the reference classifies grey. Real files (uio66, uio66-triclinic, hkust-1) get the same relations, the only oracle available there.",
+  "note": "replication relies on Atoms.replicate (C12); supercells bounded to ~300 atoms in the generated part",
+ },
  "C14": {
   "technique": "exhaustive enumeration of the mass table x tolerance boundaries + Hypothesis lists, against a nearest-within-tolerance specification",
   "text": "Every table entry and every mass on both sides of every tolerance boundary between mass-neighbours (incl. out-of-order pairs) is enumerated completely for six tolerances through the helper and through load_lmpdat; write/read of every element; plus generated mixed lists. Finite domain enumerated, so within it the result is complete; tolerances other than the six only sampled.",
